@@ -554,7 +554,7 @@ func (d *Datastore) readStoreKeysMeta(ctx context.Context, store cachepb.Store) 
 			if !ok {
 				return result, nil
 			}
-			key := strings.Join(e.GetPath(), tree.KeysIndexSep)
+			key := tree.PathKey(e.GetPath())
 			_, exists := result[key]
 			if !exists {
 				result[key] = tree.UpdateSlice{}
